@@ -154,3 +154,75 @@ T('c05-twin-positional-damping', 'C05', 'damping passed positionally',
        "                    layer.compute_g_inv(self.damping)\n                if (\n                    self._assignment.broadcast_inverses()\n                    and self._assignment.is_grad_worker(name)\n                ):\n                    layer.broadcast_g_inv(\n                        src=self._assignment.inv_worker(name, 'G'),\n                        group=self._assignment.grad_worker_group(name),\n                    )\n            self._tdc"))
 T('c05-twin-hp-if-stmt', 'C05', 'property written with if/return',
   (BP, "        return self._lr(self.steps) if callable(self._lr) else self._lr", "        if callable(self._lr):\n            return self._lr(self.steps)\n        return self._lr"))
+
+# ---------------------------------------------------------------- C09
+M('c09-steps-restored-last', 'C09', 'DOM-DAMPARG', 'step counter restored after the recomputation',
+  (BP, "        self._steps = state_dict['steps']\n        if 'factor_update_steps' in state_dict:", "        if 'factor_update_steps' in state_dict:"),
+  (BP, "                        src=self._assignment.inv_worker(name, 'G'),\n                        group=self._assignment.grad_worker_group(name),\n                    )\n\n    @torch.no_grad()",
+       "                        src=self._assignment.inv_worker(name, 'G'),\n                        group=self._assignment.grad_worker_group(name),\n                    )\n        self._steps = state_dict['steps']\n\n    @torch.no_grad()"))
+M('c09-key-not-restored', 'C09', 'TAB-SD', 'kl_clip saved but not restored',
+  (BP, "        if 'kl_clip' in state_dict:\n            self._kl_clip = state_dict['kl_clip']\n", ""))
+M('c09-crosswired-restore', 'C09', 'TAB-SD', 'lr restored from the damping key',
+  (BP, "            self._lr = state_dict['lr']", "            self._lr = state_dict['damping']"))
+M('c09-crosswired-save', 'C09', 'TAB-SD', 'factor_decay saved from damping',
+  (BP, "            state_dict['factor_decay'] = self._factor_decay", "            state_dict['factor_decay'] = self._damping"))
+M('c09-save-callable', 'C09', 'TAB-SD', 'damping saved even when callable',
+  (BP, "        if not callable(self._damping):\n            state_dict['damping'] = self._damping", "        state_dict['damping'] = self._damping"))
+M('c09-layer-swap', 'C09', 'TAB-LAYER', "layer restores G from key 'A'",
+  (LB, "            self.g_factor = state_dict['G'].to(device)", "            self.g_factor = state_dict['A'].to(device)"))
+M('c09-raw-slot-saved', 'C09', 'TAB-LAYER', 'raw (possibly Future) slot saved',
+  (LB, "        return {'A': self.a_factor, 'G': self.g_factor}", "        return {'A': self._a_factor, 'G': self._g_factor}"))
+M('c09-count-after-load', 'C09', 'DOM-COUNT', 'layer count compared with >',
+  (BP, "            if len(state_dict['layers']) != len(self._layers):", "            if len(state_dict['layers']) > len(self._layers):"))
+M('c09-load-by-position', 'C09', 'DOM-COUNT', 'layers matched by position instead of name',
+  (BP, "            for found_name, layer_state in state_dict['layers'].items():\n                for name, layer in self._layers.values():\n                    if found_name == name:\n                        layer.load_state_dict(layer_state)",
+       "            for layer_state, (name, layer) in zip(\n                state_dict['layers'].values(),\n                self._layers.values(),\n            ):\n                layer.load_state_dict(layer_state)"))
+M('c09-unguarded-broadcast', 'C09', 'S2', 'revert of the membership guard (F2)',
+  (BP, "                layer.compute_g_inv(damping=self.damping)\n                if (\n                    self._assignment.broadcast_inverses()\n                    and self._assignment.is_grad_worker(name)\n                ):\n                    layer.broadcast_a_inv(\n                        src=self._assignment.inv_worker(name, 'A'),\n                        group=self._assignment.grad_worker_group(name),\n                    )\n                    layer.broadcast_g_inv(", "                layer.compute_g_inv(damping=self.damping)\n                if self._assignment.broadcast_inverses():\n                    layer.broadcast_a_inv(\n                        src=self._assignment.inv_worker(name, 'A'),\n                        group=self._assignment.grad_worker_group(name),\n                    )\n                    layer.broadcast_g_inv("))
+T('c09-twin-steps-private', 'C09', "state saved from self._steps",
+  (BP, "state_dict: dict[str, Any] = {'steps': self.steps}", "state_dict: dict[str, Any] = {'steps': self._steps}"))
+T('c09-twin-reordered-restores', 'C09', 'restores reordered',
+  (BP, "        if 'kl_clip' in state_dict:\n            self._kl_clip = state_dict['kl_clip']\n        if 'lr' in state_dict:\n            self._lr = state_dict['lr']\n", "        if 'lr' in state_dict:\n            self._lr = state_dict['lr']\n        if 'kl_clip' in state_dict:\n            self._kl_clip = state_dict['kl_clip']\n"))
+
+# ---------------------------------------------------------------- C13
+M('c13-unguarded-compute', 'C13', 'DOM-ROLE', 'every rank eigendecomposes A',
+  (BP, "                if get_rank() == self._assignment.inv_worker(name, 'A'):\n                    layer.compute_a_inv(damping=self.damping)", "                if True:\n                    layer.compute_a_inv(damping=self.damping)"))
+M('c13-world-inverse-bcast', 'C13', 'COH-SRC', 'A inverse broadcast on the world group',
+  (BP, "                    layer.broadcast_a_inv(\n                        src=self._assignment.inv_worker(name, 'A'),\n                        group=self._assignment.grad_worker_group(name),\n                    )\n                if get_rank()", "                    layer.broadcast_a_inv(\n                        src=self._assignment.inv_worker(name, 'A'),\n                        group=None,\n                    )\n                if get_rank()"))
+M('c13-wrong-factor-src', 'C13', 'COH-SRC', 'A inverse broadcast from the G worker',
+  (BP, "                    layer.broadcast_a_inv(\n                        src=self._assignment.inv_worker(name, 'A'),\n                        group=self._assignment.grad_worker_group(name),\n                    )\n                if get_rank()", "                    layer.broadcast_a_inv(\n                        src=self._assignment.inv_worker(name, 'G'),\n                        group=self._assignment.grad_worker_group(name),\n                    )\n                if get_rank()"))
+M('c13-flag-le', 'C13', 'AFF-FLAGS', '<= for < in broadcast_gradients',
+  (AS, "        return self.grad_workers < self.world_size", "        return self.grad_workers <= self.world_size"))
+M('c13-mem-missing-dgda', 'C13', 'EXH-MEM', 'dgda not counted',
+  (LE, "        g_size += (\n            self.dgda.nelement() * self.dgda.element_size()\n            if self.dgda is not None\n            else 0\n        )\n", ""))
+M('c13-mem-elements-only', 'C13', 'EXH-MEM', 'a_inv counted in elements, not bytes',
+  (LI, "            self.a_inv.nelement() * self.a_inv.element_size()", "            self.a_inv.nelement()"))
+M('c13-double-reduce', 'C13', 'EXCL-HOOK', 'step-mode block runs in hook mode too',
+  (BP, "        if (\n            not self._update_factors_in_hook\n            and self.steps % self.factor_update_steps == 0\n        ):", "        if self.steps % self.factor_update_steps == 0:"))
+M('c13-reduce-on-inv-steps', 'C13', 'DOM-FGATE', 'factors allreduced again on inverse steps',
+  (BP, "            and self.steps % self.factor_update_steps == 0\n        ):", "            and (\n                self.steps % self.factor_update_steps == 0\n                or self.steps % self.inv_update_steps == 0\n            )\n        ):"))
+M('c13-precond-everywhere', 'C13', 'DOM-ROLE', 'all ranks precondition',
+  (BP, "            if self._assignment.is_grad_worker(name):\n                layer.preconditioned_grad(damping=self.damping)", "            if True:\n                layer.preconditioned_grad(damping=self.damping)"))
+T('c13-twin-flag-mirrored', 'C13', 'world_size > grad_workers',
+  (AS, "        return self.grad_workers < self.world_size", "        return self.world_size > self.grad_workers"))
+
+# ---------------------------------------------------------------- C02
+M('c02-no-average', 'C02', 'AFF-AVG', 'G reduction not averaged',
+  (LB, "        self.g_factor = allreduce(  # type: ignore\n            self.g_factor,\n            average=True,", "        self.g_factor = allreduce(  # type: ignore\n            self.g_factor,\n            average=False,"))
+M('c02-avg-world', 'C02', 'AFF-AVG', 'bucketed average divides by the world size',
+  (DI, "            t = future_.value()\n            if average:\n                t = (1 / get_world_size(group)) * t", "            t = future_.value()\n            if average:\n                t = (1 / get_world_size()) * t"))
+M('c02-raw-slot-read', 'C02', 'TS-FUT', 'preconditioned_grad reads the raw qa slot',
+  (LE, "        v1 = self.qg.t() @ grad @ self.qa\n        if self.prediv_eigenvalues:\n            v2 = v1 * self.dgda\n        else:\n            v2 = v1 / (\n                torch.outer(\n                    cast(torch.Tensor, self.dg),", "        v1 = self.qg.t() @ grad @ self._qa  # type: ignore\n        if self.prediv_eigenvalues:\n            v2 = v1 * self.dgda\n        else:\n            v2 = v1 / (\n                torch.outer(\n                    cast(torch.Tensor, self.dg),"))
+M('c02-future-dropped', 'C02', 'TS-FUT-USED', 'broadcast result of da stored into qa',
+  (LE, "            self.da = self.tdc.broadcast(  # type: ignore\n                self.da,", "            self.qa = self.tdc.broadcast(  # type: ignore\n                self.da,"))
+M('c02-getter-no-store', 'C02', 'TS-FUT', 'getter does not store the awaited tensor',
+  (LB, "        if isinstance(self._grad, Future):\n            self._grad = cast(torch.Tensor, self._grad.wait())\n        return self._grad", "        if isinstance(self._grad, Future):\n            return cast(torch.Tensor, self._grad.wait())\n        return self._grad"))
+M('c02-scale-before-bcast', 'C02', 'DOM-PHASE', 'clip scale computed before the gradient phase',
+  (BP, "        # Compute Preconditioned Gradients\n", "        scale = None if self.kl_clip is None else self._compute_grad_scale()\n        # Compute Preconditioned Gradients\n"),
+  (BP, "                )\n        self._tdc.flush_allreduce_buckets()\n\n        scale = None if self.kl_clip is None else self._compute_grad_scale()\n", "                )\n        self._tdc.flush_allreduce_buckets()\n"))
+M('c02-hybrid-third', 'C02', 'ENUM-STRAT', 'HYBRID_OPT mapped to 0.25',
+  (PC, "                grad_worker_fraction = 0.5", "                grad_worker_fraction = 0.25"))
+M('c02-grad-src-inv-worker', 'C02', 'COH-SRC', 'gradient broadcast from the inverse worker',
+  (BP, "                    src=self._assignment.src_grad_worker(name),", "                    src=self._assignment.inv_worker(name, 'A'),"))
+M('c02-wrong-decay', 'C02', 'COH-SRC', 'G factor averaged with damping as decay',
+  (BP, "                layer.update_g_factor(alpha=self.factor_decay)\n                layer.reduce_g_factor(self._assignment.factor_group(name, 'G'))\n\n        # Flush", "                layer.update_g_factor(alpha=self.damping)\n                layer.reduce_g_factor(self._assignment.factor_group(name, 'G'))\n\n        # Flush"))
